@@ -338,6 +338,21 @@ class Hist(Scenario):
         self.g("checkout", "-q", "-b", feat)
         nfc = feat_commits or rng.choice([1, 2, 2, 3])
         disjoint = not pf.get("rebase_conflicts", True)
+        todo_kind = None
+        if kind == "interactive":
+            todos = [k for k in ["reorder", "squash", "fixup", "drop", "edit", "reword"] if pf.get("todo_" + k, True)]
+            # finding D33 (hooks mode): a squash / fixup chain keeps only the attribution of the chain's LAST original commit. While it
+            # is open, chains are still generated in the sub-class that works in both modes: only the last commit of the chain carries
+            # agent lines, the commits folded into it before are a person's.
+            if not pf.get("todo_squash", True):
+                todos.append("squash-tail")
+            if not pf.get("todo_fixup", True):
+                todos.append("fixup-tail")
+            if os.environ.get("VERIF_TODO_KIND"):
+                todos = [os.environ["VERIF_TODO_KIND"]]
+            todo_kind = rng.choice(todos or ["reword"])
+            if todo_kind.endswith("-tail"):
+                nfc = rng.choice([2, 2, 3])
         order = list(self.files); rng.shuffle(order)
         wheres0 = [os.environ["VERIF_UPSTREAM"]] if os.environ.get("VERIF_UPSTREAM") else ([pf["upstream_where"]] if pf.get("upstream_where") else ["same", "same", "other", "new"])
         upstream_where = upstream_where or rng.choice(wheres0)
@@ -357,6 +372,9 @@ class Hist(Scenario):
                     # sub-class of same-file rebases that the full replay handles: insertions by ONE agent session on the feature side
                     # (adjacent insertions of different sessions get each other's credit, part of finding D20)
                     self.do_edit(author=one_session, kinds=["ins"])
+                elif todo_kind in ("squash-tail", "fixup-tail") and not (todo_kind == "fixup-tail" and i >= 2):
+                    tail = (nfc - 1) if todo_kind == "squash-tail" else 1
+                    self.do_edit(author=rng.choice(self.sessions) if i == tail else "human", f=order[i] if disjoint else None)
                 else:
                     self.do_edit(f=order[i] if disjoint else None)
             self.commit_all("feat%d" % i)
@@ -396,11 +414,7 @@ class Hist(Scenario):
             p = self.g("rebase", "--onto", base_branch, feat + "~1", feat)
         elif kind == "interactive" and nfc >= 2:
             self.g("checkout", "-q", feat)
-            todos = [k for k in ["reorder", "squash", "fixup", "drop", "edit", "reword"] if pf.get("todo_" + k, True)]
-            if os.environ.get("VERIF_TODO_KIND"):
-                todos = [os.environ["VERIF_TODO_KIND"]]
-            todo_kind = rng.choice(todos or ["reword"])
-            seq = self.make_seq_editor(todo_kind)
+            seq = self.make_seq_editor(todo_kind.replace("-tail", ""))
             p = self.g("rebase", "-i", base_branch, env={"GIT_SEQUENCE_EDITOR": seq})
             self.ops.append("todo:" + todo_kind)
             self.log.append(["todo", todo_kind])
